@@ -6,6 +6,7 @@ import (
 	stdjson "encoding/json"
 	"fmt"
 	"reflect"
+	"regexp"
 	"strings"
 
 	"github.com/segmentio/encoding/json"
@@ -136,8 +137,47 @@ func baseDocs(t reflect.Type) [][]byte {
 			add(b)
 		}
 	}
+	// object key variants of the valid documents: trailing NUL (zero padding of the
+	// keyset lookup), case changes, prefix / extension, duplicate under a variant
+	n := len(out)
+	for i := 0; i < n && i < 3; i++ {
+		d := out[i]
+		for _, m := range keyRe.FindAllSubmatchIndex(d, 4) {
+			name := string(d[m[2]:m[3]])
+			for _, v := range []string{name + `\u0000`, strings.ToUpper(name), strings.ToLower(name), name + " ", name + "x", name[:len(name)-1], "\u017f" + name, name + `\u0000\u0000`} {
+				alt := string(d[:m[2]]) + v + string(d[m[3]:])
+				add([]byte(alt))
+			}
+			// the same member again under a variant name, after the original
+			if d[len(d)-1] == '}' {
+				val := memberValue(d, m[1])
+				if val != "" {
+					for _, v := range []string{name + `\u0000`, strings.ToUpper(name)} {
+						add([]byte(string(d[:len(d)-1]) + `,"` + v + `":` + val + `}`))
+					}
+				}
+			}
+		}
+	}
 	docCache[t] = out
 	return out
+}
+
+var keyRe = regexp.MustCompile(`"([A-Za-z][A-Za-z0-9_]*)":`)
+
+// memberValue returns the text of the value that follows position p if it is a scalar.
+func memberValue(d []byte, p int) string {
+	rest := d[p:]
+	for i, c := range rest {
+		if c == ',' || c == '}' {
+			v := string(rest[:i])
+			if !strings.ContainsAny(v, "[{") {
+				return v
+			}
+			return ""
+		}
+	}
+	return ""
 }
 
 var literalDocs = [][]byte{}
@@ -152,6 +192,7 @@ func init() {
 		"[]", "[1]", "[1,2]", "[1,2,3]", `[1,"a"]`, "[null]", "[[1]]", "[1,]", "[,1]", "[1 2]", "[", "]", "[1", `["a","b"]`, "[true]", "[{}]",
 		"{}", `{"F":1}`, `{"f":1}`, `{"F":null}`, `{"F":"x"}`, `{"F":1,"F":2}`, `{"F":1,"f":2}`, `{"f":1,"F":2}`, `{"G":1}`, `{"":1}`, `{"F":1,"Unknown":[1,{"a":2}]}`, `{"F":[1,2]}`, `{"F":{"F":1}}`, `{"a":1,"b":2}`, `{"1":1,"-2":2}`, `{"1.5":1}`, `{"A":1,"a":2}`, `{"F":1,}`, `{"F" 1}`, `{"F":1 "G":2}`, `{F:1}`, `{`, `{"F"`, `{"F":`, `{"F":1`,
 		`{"ID":7,"name":"n","Extra":true,"Level":3,"Misc":"m","id":9,"Inner":"i"}`, `{"Name":1,"NAME":2,"name":3,"nAmE":4,"Name2":5}`, `{"ſhort":1,"Key":2}`, `{"vm":5}`, `[5,"x"]`, `"vt<5>"`, `"pt&5"`, `"vms:x"`, `"pts:y"`, `"i7"`, "1007", `"3-4"`, `"p9"`,
+		`{"a":"x","b":null}`, `{"a":1,"b":null}`, `{"a":[1],"b":null}`, `{"a":true,"b":null}`, `{"a":{"a":1},"b":null}`, `{"a":["x"],"b":null,"c":[]}`, `["x",null]`, `[1,null]`, `[[1],null]`, `[{"a":1},null]`, `[true,null,false]`, `{"F":"x","G":null}`, `{"F":1,"G":null}`,
 		" 1 ", "\n\t[ 1 , 2 ]\r\n", "1 2", "1}", "nul", "nulll", "tru", "True", "NaN", "Infinity", "", " ",
 	} {
 		literalDocs = append(literalDocs, []byte(s))
